@@ -86,7 +86,14 @@ def main():
     quick = rep.tier == "quick"
     schemas = S.corpus() + S.random_schemas(rep.seed, 3 if quick else 60) + S.clash_schemas(rep.seed, 6 if quick else 60)
     schemas += [hostile_text_schema(), float_literal_schema(),
-                libnames_schema()]
+                libnames_schema()] + S.pair_clash_schemas()
+    sparse = S.pair_clash_schemas(sparse=True)
+    if quick:
+        # sibling and nested group pairs always; a seeded sample of the other positions
+        keep = [s for s in sparse if s.name.startswith(("ps_sib", "ps_nest"))]
+        rest = [s for s in sparse if not s.name.startswith(("ps_sib", "ps_nest"))]
+        sparse = keep + C.rng_for(rep.seed, "c07-sparse").sample(rest, 30)
+    schemas += sparse
     hdr_cfgs = [build.Cfg("g++", "17", "O0")] if quick else [build.Cfg(c, s, "O0") for c, s in build.all_compiler_std()]
     if quick:
         hdr_cfgs_sampled = [build.Cfg("clang++", "11", "O0"), build.Cfg("clang++", "23", "O0"), build.Cfg("g++", "20", "O0")]
@@ -96,7 +103,11 @@ def main():
         hdr_cfgs_sampled = []
         tu_cfgs = [build.Cfg(c, s, "O0") for c, s in build.all_compiler_std()]
     rep.rule("schemas: covering corpus (6), seeded random (%d), clash-pool names (%d), hostile text, float literal forms, "
-             "library-member names, and three special-purpose raw schemas; per accepted schema every generated header is "
+             "library-member names, 7 systematic pair-clash schemas (every ordered pair of {X, X_entry, X_0, X_0_entry, X_1, entry, "
+             "X_entry_0} as sibling groups, nested groups, group + entry member, field + group, group + data, message + "
+             "group), the same pairs as single-message schemas (all 91 sibling/nested pairs + 30 sampled others in quick, "
+             "all 273 in thorough; message header, top-level header and touch TU compiled), and three special-purpose raw "
+             "schemas; per accepted schema every generated header is "
              "compiled alone (-fsyntax-only) and the touch-everything TU is compiled, under the configurations listed. An "
              "evaluation is one compiler run; distinct_nontrivial = distinct (schema, header or TU, configuration) compiled."
              % ((3 if quick else 60), (6 if quick else 60)))
@@ -121,6 +132,11 @@ def main():
         for root, _, fs in os.walk(gen["dir"]):
             hdrs += [os.path.relpath(os.path.join(root, f), gen["dir"]) for f in fs if f.endswith(".hpp")]
         hdrs.sort()
+        if name.startswith("ps_"):
+            # single-message pair schemas: the type headers are the same in all of them
+            for h in [x for x in hdrs if "/messages/" in x or x.count("/") == 1 and not x.endswith("schema.hpp")]:
+                jobs.append(("hdr", name, xml, gen, h, hdr_cfgs[0]))
+            continue
         for h in hdrs:
             for cfg in hdr_cfgs:
                 jobs.append(("hdr", name, xml, gen, h, cfg))
@@ -128,7 +144,7 @@ def main():
             for h in rng.sample(hdrs, min(len(hdrs), 6)):
                 jobs.append(("hdr", name, xml, gen, h, cfg))
     for p in preps:
-        for cfg in tu_cfgs:
+        for cfg in (tu_cfgs[:1] if p.schema.name.startswith("ps_") else tu_cfgs):
             jobs.append(("tu", p.schema.name, p.xml, p.gen, p, cfg))
 
     def run(job):
